@@ -34,7 +34,7 @@ from vf import core
 from vf.gen import species as S
 
 ID = 'C11'
-N = {'quick': 2500, 'thorough': 40000}
+N = {'quick': 2000, 'thorough': 40000}
 NT_RULE = ('one object tree per case: class drawn uniformly from the 33 classes of the quantifier, '
            'attributes and nested objects drawn from a PRNG seeded per case index (after directed '
            'witnesses of every pre-finding); 1-3 encode/decode cycles and 2-3 evaluation conditions; '
@@ -53,7 +53,7 @@ REQUIRED_CLASSES = ['top:' + c for c in TOP_CLASSES] + [
     'StatMech:references', 'StatMech:misc_models', 'StatMech:plain', 'StatMech:elements',
     'GroundStateElec:D0', 'Nasa:cat_site', 'Nasa:model', 'empirical:misc_models',
     'Reaction:TS_species', 'Reaction:TS_BEP', 'Reaction:no_TS', 'Reaction:notes',
-    'LSR:floats', 'LSR:objects', 'References:fitted', 'References:offset_only',
+    'LSR:floats', 'LSR:objects', 'References:fitted', 'References:offset_only', 'References:refs_and_offset',
     'PhaseDiagram:norm_factors', 'PhaseDiagram:default_norm', 'SurfaceReaction:id',
     'SurfaceReaction:direction', 'Reactions:mixed_classes', 'children:plain', 'children:rich',
     'cycles:1', 'cycles:2', 'cycles:3', 'depth>=3']
@@ -198,7 +198,13 @@ def g_references(rng, fitted=True):
         r = g_reference(rng, 'ref_%d' % i, comp)
         r['T_ref'] = T_ref
         refs.append(r)
-    return {'type': 'References', 'references': refs, 'offset': None, 'descriptor': 'elements',
+    if rng.random() < 0.2:
+        refs[-1]['T_ref'] = _r(rng, 200, 600, 2)      # unequal reference temperatures (mean is used)
+    offset = None
+    if rng.random() < 0.3:
+        # reference species kept together with a hand-set offset (no fit at construction)
+        offset = {e: _r(rng, -30, 30, 6) for e in els}
+    return {'type': 'References', 'references': refs, 'offset': offset, 'descriptor': 'elements',
             'T_ref': T_ref}
 
 
@@ -381,7 +387,6 @@ def g_top(rng, cls):
     if cls in ('Nasa', 'Nasa9', 'Shomate'):
         return g_empirical(rng, cls, rng.choice(NAMES), rich=rng.random() < 0.85)
     if cls == 'SingleNasa9':
-        lo, hi = S.gen_breaks(rng, 1, 100, 3000)
         return {'type': 'SingleNasa9', 'T_low': 100.0, 'T_high': 3000.0, 'a': S.gen_nasa9_coeffs(rng)}
     if cls == 'Reference':
         return g_reference(rng, rng.choice(NAMES), g_elements(rng))
@@ -562,7 +567,8 @@ def build(node):
         from pmutt.empirical.references import References
         if node['references'] is None:
             return References(offset=dict(node['offset']), descriptor=node['descriptor'], T_ref=node['T_ref'])
-        return References(references=[build(r) for r in node['references']], descriptor=node['descriptor'],
+        return References(offset=dict(node['offset']) if node.get('offset') else None,
+                          references=[build(r) for r in node['references']], descriptor=node['descriptor'],
                           T_ref=node['T_ref'])
     if t == 'GasPressureAdj':
         from pmutt.empirical import GasPressureAdj
@@ -795,7 +801,6 @@ class Cmp:
             b = list(b)
         if isinstance(a, list):
             if not isinstance(b, list) or len(a) != len(b):
-                # still descend into the pMuTT members that can be paired (they report themselves)
                 return False
             ok = True
             for x, y in zip(a, b):
@@ -909,8 +914,14 @@ class Cmp:
                     dirty = True
                     ctx.fail('J3', dict(m, what='shape'), got=_short(vb), want=_short(va), kwargs=_short(kw))
                     continue
-                if not ctx.close('J3', fb, fa, TOL, m, kwargs=_short(kw)):
+                e = ctx.err(fb, fa)
+                if e <= TOL:
+                    if e > ctx.max_err.get('J3', 0.0):
+                        ctx.max_err['J3'] = e
+                    ctx.held('J3')
+                else:
                     dirty = True
+                    ctx.fail('J3', m, got=fb, want=fa, err=e, tol=TOL, kwargs=_short(kw))
         return dirty
 
 
@@ -921,6 +932,7 @@ class _Silent:
         self.ctx = ctx
         self.key = key
         self.extra = {}
+        self.max_err = {}
 
     def held(self, oracle, n=1):
         pass
@@ -1311,7 +1323,10 @@ def _classify(spec, ctx):
         if t == 'LSR':
             ctx.cls('LSR:floats' if not isinstance(node['reaction'], dict) else 'LSR:objects')
         if t == 'References':
-            ctx.cls('References:fitted' if node['references'] else 'References:offset_only')
+            if node['references'] and node.get('offset'):
+                ctx.cls('References:refs_and_offset')
+            else:
+                ctx.cls('References:fitted' if node['references'] else 'References:offset_only')
         if t == 'PhaseDiagram':
             ctx.cls('PhaseDiagram:norm_factors' if node.get('norm_factors') else 'PhaseDiagram:default_norm')
         if t == 'Reactions' and node.get('mixed'):
